@@ -3,11 +3,13 @@
 pub mod sym;
 pub mod vocab;
 pub mod step;
+pub mod exec;
 
 /// All harness instances by name (used by the native replay binary).
 #[cfg(not(kani))]
 pub fn registry() -> Vec<(&'static str, fn())> {
     let mut v: Vec<(&'static str, fn())> = Vec::new();
     v.extend_from_slice(step::INSTANCES);
+    v.extend_from_slice(exec::INSTANCES);
     v
 }
